@@ -22,6 +22,8 @@ def run(report, db, tier):
         'order of flush / interrupt / close inside disconnect on its CFG.')
     cg = CallGraph(db)
     M = ConnModel(db, cg)
+    from .. import shared as _sh
+    whole_frames(report, db, cg, _sh.summariser(db, cg))
     r1(report, db, cg, M)
     r2(report, db, cg, M)
     r3(report, db, cg, M)
@@ -55,7 +57,6 @@ def run(report, db, tier):
                 'compression_threshold', 'compression_enabled'),
             what='compression threshold') or 0
     report.floor('set-compression paths checked', nsw, 2)
-    whole_frames(report, db, cg, S)
     from ..common import borrow
     from . import c16
     from .. import pathsum
